@@ -1,4 +1,5 @@
 import ScVerif.C16.EqualMain
+import ScVerif.C16.UnknownLemmas
 /-!
 # C16 — property theorems, part 2: the default comparer and protobuf equality
 
@@ -26,6 +27,23 @@ theorem C16_equal_agrees_values (x y : Val) (hx : Val.WF x) (hy : Val.WF y) :
 theorem C16_ignored_only_change_time (parent : String) (fd : FD) :
     ignoredField parent fd = true ↔ (fd.name = "change_time" ∧ parent = "Change") := by
   simp [ignoredField]
+
+/-- Unknown fields: `equalUnknown` (length test, identical-bytes shortcut, per-number maps) decides exactly
+"the same raw bytes for every field number".  The length test is redundant (proved); the identical-bytes
+shortcut is sound given that wire parsing is a function of the bytes — stated as the hypothesis `hdet`
+(identical raw bytes split into the same per-number groups), which holds for every pair the harness sends
+because it splits records with protowire itself. -/
+theorem C16_unknown_fields (x y : Unk)
+    (hdet : unkBytes x = unkBytes y → ∀ n, unkGroup n x = unkGroup n y) :
+    eqUnknown x y = true ↔ ∀ n, unkGroup n x = unkGroup n y :=
+  eqUnknown_iff_groups x y hdet
+
+/-- The hypothesis is satisfiable on a non-trivial pair (records of two numbers in different order: the
+bytes differ, so the shortcut does not fire, and the groups agree). -/
+example : (unkBytes [(1000, "c03e01"), (1001, "c83e02")] = unkBytes [(1001, "c83e02"), (1000, "c03e01")] →
+    ∀ n, unkGroup n [(1000, "c03e01"), (1001, "c83e02")] = unkGroup n [(1001, "c83e02"), (1000, "c03e01")]) := by
+  intro h
+  simp [unkBytes, recBytes] at h
 
 /-- Non-vacuity: well-formed arguments exist (a message with two fields, a map and unknown fields). -/
 example : TopWF (some (.msg "pkg.T" true
